@@ -405,6 +405,12 @@ func findLoopAny(body *ast.BlockStmt, n int) (*loopCtx, []ast.Stmt) {
 				return walk(s.Body.List)
 			case *ast.RangeStmt:
 				return walk(s.Body.List)
+			case *ast.SelectStmt: // ext_io.go: a loop inside a select clause (the received value is not declared: use hints)
+				for _, cc := range s.Body.List {
+					if cl := cc.(*ast.CommClause); contains(cl) {
+						return walk(cl.Body)
+					}
+				}
 			}
 			fail("LoopAny: the loop is nested in a statement other than if / else / block / for")
 		}
@@ -478,6 +484,10 @@ func (x *tr) stepOnly(before []ast.Stmt) string {
 					declare(id.Name, a.Ret.Typ)
 					continue
 				}
+			}
+			if bl, ok := s.Rhs[0].(*ast.BasicLit); ok && bl.Kind == token.INT { // ext_io.go: `n := 0`
+				declare(id.Name, "int")
+				continue
 			}
 			declare(id.Name, "ptr:?")
 		}
